@@ -1315,7 +1315,9 @@ fn oracle_c13(o: &Outcome) -> (Verdict, bool, Vec<(String, u64)>) {
     // ---------- causal rules from the tap of each endpoint (exact processing order)
     for (side, tap) in [('a', &o.tap_a), ('b', &o.tap_b)] {
         let mut r_window: Option<u32> = None; // a_rwnd of the last SACK / INIT / INIT-ACK handed in
-        let mut epoch_new: usize = 0;
+        let mut epoch_new: usize = 0; // DATA bytes (new + retransmitted) emitted in the current epoch
+        let mut prev_data_was_rtx = false;
+        let mut last_rtx_tsn: Option<u32> = None;
         let mut sent: HashSet<u32> = HashSet::new();
         let mut cum: Option<u32> = None;
         let mut gap_acked: HashSet<u32> = HashSet::new();
@@ -1358,6 +1360,7 @@ fn oracle_c13(o: &Outcome) -> (Verdict, bool, Vec<(String, u64)>) {
                             }
                             min_rwnd_seen = min_rwnd_seen.min(s.a_rwnd);
                             epoch_new = 0;
+                            prev_data_was_rtx = false;
                             if cum.map(|c| serial_lt(c, s.cum_tsn)).unwrap_or(true) {
                                 cum = Some(s.cum_tsn);
                             }
@@ -1379,6 +1382,17 @@ fn oracle_c13(o: &Outcome) -> (Verdict, bool, Vec<(String, u64)>) {
                     }
                 }
                 continue;
+            }
+            if ev.raw_len > 1200 {
+                return (
+                    Verdict::violated(
+                        "tap:packet_too_big",
+                        format!("side {side} emitted an SCTP packet of {} bytes (limit 1200): {}", ev.raw_len, ev.pkt.summary().chars().take(200).collect::<String>()),
+                        json!({"len": ev.raw_len, "tap_index": i}),
+                    ),
+                    true,
+                    counters,
+                );
             }
             // TX: verification tag = the tag the peer announced to THIS endpoint (0 only on INIT)
             if ev.pkt.has(sctprd::CT_INIT) {
@@ -1422,9 +1436,23 @@ fn oracle_c13(o: &Outcome) -> (Verdict, bool, Vec<(String, u64)>) {
                                     counters,
                                 );
                             }
-                            epoch_new = 0;
+                            // A retransmission burst (T3 collapse / fast retransmit / probe) re-bases the
+                            // flight accounting: start a new epoch at its FIRST chunk, but count the
+                            // retransmitted bytes themselves - they are in flight again, so new data sent
+                            // behind them must still fit into the advertised window together with them.
+                            // (a burst retransmits in increasing TSN order; a TSN that does not increase
+                            // starts the next burst, e.g. the following T3 round)
+                            let continues_burst = prev_data_was_rtx
+                                && last_rtx_tsn.map(|t| serial_lt(t, d.tsn)).unwrap_or(false);
+                            if !continues_burst {
+                                epoch_new = 0;
+                            }
+                            epoch_new += d.payload_len;
+                            prev_data_was_rtx = true;
+                            last_rtx_tsn = Some(d.tsn);
                             nontrivial = true;
                         } else {
+                            prev_data_was_rtx = false;
                             if let Some(n) = next_new_tsn {
                                 if d.tsn != n {
                                     return (
@@ -1452,8 +1480,9 @@ fn oracle_c13(o: &Outcome) -> (Verdict, bool, Vec<(String, u64)>) {
                                         return (
                                             Verdict::violated(
                                                 "tap:window_overrun",
-                                                format!("side {side} sent {epoch_new} bytes of new data after the peer advertised a window of {r} bytes (allowed: window + one packet)"),
+                                                format!("side {side} put {epoch_new} bytes of DATA (new data plus the retransmissions emitted just before it) in flight after the peer advertised a window of {r} bytes (allowed: window + one packet)"),
                                                 json!({"a_rwnd": r, "new_bytes": epoch_new, "tap_index": i, "tsn": d.tsn,
+                                                       "context": tap[i.saturating_sub(16)..=i].iter().map(|e| format!("{} {} {}", e.t_us, if e.tx {"TX"} else {"RX"}, e.pkt.summary().chars().take(150).collect::<String>())).collect::<Vec<_>>(),
                                                        "cfg": {"rwnd": o.scn.rwnd, "max_burst": o.scn.max_burst, "max_cwnd": o.scn.max_cwnd}}),
                                             ),
                                             true,
@@ -1723,6 +1752,19 @@ fn gen_c01(args: &Args) -> Vec<Scenario> {
         }
         out.push(s);
     }
+    // truly parallel senders of multi-fragment messages on DIFFERENT channels of one association:
+    // the fragments of a message must keep consecutive TSNs whatever the task interleaving
+    for i in 0..args.tier.pick(4, 24) {
+        let mut s = default_scn("c01", &format!("parallel-frag#{i}"));
+        s.chans = (1..=6u16).map(reliable_chan).collect();
+        s.plan = if i % 2 == 0 { Plan::default() } else { random_plan(&mut rng, false) };
+        s.max_buffered = 4 * 1024 * 1024;
+        for c in 1..=6u16 {
+            s.sends.push(SendSpec { side: 'a', ch: c, sender: 0, n: args.tier.pick(60, 200), mode: "big".into(), seed: rng.next_u64(), gap_us: 0 });
+        }
+        s.sends.push(SendSpec { side: 'b', ch: 1, sender: 0, n: 20, mode: "small".into(), seed: rng.next_u64(), gap_us: 0 });
+        out.push(s);
+    }
     // TSN wrap (hook H1) crossed with loss
     for (i, k) in [1u32, 5, 600].into_iter().enumerate() {
         for side in 0..2 {
@@ -1900,6 +1942,27 @@ fn gen_c13(args: &Args) -> Vec<Scenario> {
                 };
                 s.sends.push(SendSpec { side: 'a', ch: 1, sender: 0, n: 40, mode: "frag".into(), seed: rng.next_u64(), gap_us: 0 });
                 s.sends.push(SendSpec { side: 'b', ch: 1, sender: 0, n: 5, mode: "small".into(), seed: rng.next_u64(), gap_us: 0 });
+                out.push(s);
+            }
+        }
+    }
+    // window full + SACKs withheld until T3 fires with more data queued: the retransmission burst and
+    // the new data behind it must fit the advertised window together
+    for rwnd in [4096usize, 8192] {
+        for first in [1u32, 2] {
+            for cwnd in [8 * 1024usize, 256 * 1024] {
+                let mut s = default_scn("c13", &format!("sackhold:rwnd={rwnd},first={first},cwnd={cwnd}"));
+                s.rwnd = rwnd;
+                s.max_cwnd = cwnd;
+                s.rto_ms = (150, 80, 400);
+                s.plan = Plan {
+                    rules: (first..first + 5)
+                        .map(|o| Rule { dir: Dir::B2A, class: "SACK".into(), ordinal: o, action: Action::Drop })
+                        .collect(),
+                    random: None,
+                    seed: 0,
+                };
+                s.sends.push(SendSpec { side: 'a', ch: 1, sender: 0, n: 40, mode: "frag".into(), seed: rng.next_u64(), gap_us: 0 });
                 out.push(s);
             }
         }
